@@ -9,7 +9,7 @@ MODULES = ["Mimium.Props.C16"]
 
 # renaming pools: plain fresh names, names resembling compiler-generated ones, leading underscore, Unicode XID
 def pools(extracted, avoid=()):
-    gen_like = ["lambda_{i}", "__dt{i}", "record_update_temp{i}", "closure_{i}", "_mimium_tmp{i}", "state_{i}", "alloc{i}", "_mimium_global{i}", "_mimium_global_", "_mimium_getnow{i}", "dsp{i}", "mimium_main{i}"]
+    gen_like = ["lambda_{i}", "__dt{i}", "record_update_temp{i}", "closure_{i}", "_mimium_tmp{i}", "state_{i}", "alloc{i}", "_mimium_global{i}", "_mimium_global_{i}", "_mimium_getnow{i}", "dsp{i}", "mimium_main{i}"]
     for g in extracted.get("generated_name_patterns", []):
         if g not in gen_like:
             gen_like.append(g)
@@ -24,7 +24,7 @@ def pools(extracted, avoid=()):
 
 # `_mimium_global` itself is a RESERVED word since the repair of finding F15 (the compiler wraps the program in a function of that
 # name and recognises it by the name): like a keyword it is outside the renaming pools (look-alikes `_mimium_global{i}`,
-# `_mimium_global_` are in), and every way of binding it must be answered by the diagnostic, never by a crash or a wrong result
+# `_mimium_global_{i}` are in), and every way of binding it must be answered by the diagnostic, never by a crash or a wrong result
 RESERVED_PROBES = [
     ("let", "fn dsp(){ let _mimium_global = 1.0\n _mimium_global }\n"),
     ("function", "fn _mimium_global(){ 1.0 }\nfn dsp(){ _mimium_global() }\n"),
